@@ -18,6 +18,8 @@ LEVEL_TEXT = ("Static panic-site inventory with per-site discharge: every panic-
               "provenance/guard rule or by a reviewed entry; plus structural rules for recursion and for manual-cursor loops. This is "
               "stricter than the property on purpose (who-may-call discipline on the untrusted-text path). Panics or non-termination "
               "inside rexile, nom, chrono, std are not decided.")
+LEVEL_TEXT += (" Not decided: the running time of matching inside the regex dependency `rexile` (trusted base); it is known to be "
+               "super-linear on long runs of `(` - parse_rules with 300 unbalanced parentheses exceeds the property's 120 s watchdog (DESIGN 9.1).")
 RULE = ("one obligation per panic-capable site, recursion cycle and non-iterator loop in the reachable set; discharge rules: guarded "
         "unwrap, mandatory capture group (regex literal reader), char-boundary-safe str slice with ordered bounds, in-range index, "
         "bounded arithmetic, reviewed table")
@@ -34,6 +36,7 @@ EXPLANATION = ("a: the reachable set R is computed from the public parse entry p
                "cycles in R must pass a strict part of their text/tree argument. c: loops in R that are not iterator-driven must "
                "advance their cursor on every path round the loop.")
 FLOORS = {"entry_points": 9, "sites": 150}
+EXPLANATION += " b (added): for every recursion cycle, depth bound x sum of dev-profile frame sizes (read from the object file's .stack_sizes section) fits half of a 2 MiB stack; the depth bound is the constant of a recognised depth guard whose counter grows on every cycle and is never reset inside it, a reviewed bound, or the 4 KiB input bound."
 
 HERE = os.path.dirname(os.path.abspath(__file__))
 D = 40   # formatting depth for identity comparisons (no truncation)
